@@ -166,26 +166,51 @@ pub(crate) fn c07_run(threads_form: bool, max_items: u32, do_cut: bool) {
   let cut_at: i64 = if do_cut { e::choose(10) as i64 } else { -1 };
   let by_guard = do_cut && e::choose_bool();
   let mut unsub: Option<Box<dyn FnOnce()>> = None;
+  let closed_cell: std::rc::Rc<std::cell::RefCell<Option<Box<dyn Fn() -> bool>>>> = Default::default();
   let mut exec_box: Exec;
   macro_rules! build {
     ($src:expr, $sd:ident, $delay:ident, $obs_on:ident, $boxsub:ident) => {{
       let src = $src;
       match op {
         MoveOp::ObserveOn => {
-          let u = src.$obs_on($sd.clone()).actual_subscribe(probe);
-          unsub = Some(Box::new(move || if by_guard { drop(u.unsubscribe_when_dropped()) } else { u.unsubscribe() }));
+          let u = std::rc::Rc::new(std::cell::RefCell::new(Some(src.$obs_on($sd.clone()).actual_subscribe(probe))));
+          let u2 = u.clone();
+          *closed_cell.borrow_mut() = Some(Box::new(move || u2.borrow().as_ref().map_or(true, |x| x.is_closed())));
+          unsub = Some(Box::new(move || {
+            if let Some(u) = u.borrow_mut().take() {
+              if by_guard { drop(u.unsubscribe_when_dropped()) } else { u.unsubscribe() }
+            }
+          }));
         }
         MoveOp::Delay(k) => {
-          let u = src.$delay(d(k), $sd.clone()).actual_subscribe(probe);
-          unsub = Some(Box::new(move || if by_guard { drop(u.unsubscribe_when_dropped()) } else { u.unsubscribe() }));
+          let u = std::rc::Rc::new(std::cell::RefCell::new(Some(src.$delay(d(k), $sd.clone()).actual_subscribe(probe))));
+          let u2 = u.clone();
+          *closed_cell.borrow_mut() = Some(Box::new(move || u2.borrow().as_ref().map_or(true, |x| x.is_closed())));
+          unsub = Some(Box::new(move || {
+            if let Some(u) = u.borrow_mut().take() {
+              if by_guard { drop(u.unsubscribe_when_dropped()) } else { u.unsubscribe() }
+            }
+          }));
         }
         MoveOp::DelaySubscription(k) => {
-          let u = src.delay_subscription(d(k), $sd.clone()).actual_subscribe(probe);
-          unsub = Some(Box::new(move || if by_guard { drop(u.unsubscribe_when_dropped()) } else { u.unsubscribe() }));
+          let u = std::rc::Rc::new(std::cell::RefCell::new(Some(src.delay_subscription(d(k), $sd.clone()).actual_subscribe(probe))));
+          let u2 = u.clone();
+          *closed_cell.borrow_mut() = Some(Box::new(move || u2.borrow().as_ref().map_or(true, |x| x.is_closed())));
+          unsub = Some(Box::new(move || {
+            if let Some(u) = u.borrow_mut().take() {
+              if by_guard { drop(u.unsubscribe_when_dropped()) } else { u.unsubscribe() }
+            }
+          }));
         }
         MoveOp::SubscribeOn => {
-          let u = src.subscribe_on($sd.clone()).actual_subscribe(probe);
-          unsub = Some(Box::new(move || if by_guard { drop(u.unsubscribe_when_dropped()) } else { u.unsubscribe() }));
+          let u = std::rc::Rc::new(std::cell::RefCell::new(Some(src.subscribe_on($sd.clone()).actual_subscribe(probe))));
+          let u2 = u.clone();
+          *closed_cell.borrow_mut() = Some(Box::new(move || u2.borrow().as_ref().map_or(true, |x| x.is_closed())));
+          unsub = Some(Box::new(move || {
+            if let Some(u) = u.borrow_mut().take() {
+              if by_guard { drop(u.unsubscribe_when_dropped()) } else { u.unsubscribe() }
+            }
+          }));
         }
       }
     }};
@@ -209,7 +234,21 @@ pub(crate) fn c07_run(threads_form: bool, max_items: u32, do_cut: bool) {
   let mut points: i64 = 0;
   let mut cut_done = false;
   let mut unsub_cell = unsub;
+  let mut closed_seen = false;
   let mut cut_point = |_: &mut Exec| {
+    // C17: sample is_closed() of the returned subscription at every point
+    if !cut_done {
+      if let Some(q) = closed_cell.borrow().as_ref() {
+        let c = q();
+        if closed_seen && !c {
+          e::fail("sched/is_closed-went-back-to-false", || "is_closed() of the returned subscription went from true back to false".to_string());
+        }
+        if c && !closed_seen {
+          closed_seen = true;
+          probe.forbid("sched/delivery-after-is_closed");
+        }
+      }
+    }
     if do_cut && !cut_done && points == cut_at {
       if let Some(u) = unsub_cell.take() {
         e::note(format!("unsubscribe() at t={}", world::now()));
@@ -384,7 +423,7 @@ pub fn harnesses() -> Vec<HarnessDef> {
   fn b7(t: bool) -> String {
     format!("observe_on, delay(1|2), delay_subscription(1|2), subscribe_on; scripts of <= {} symbolic items with gaps 0..2 and every terminal; hot and cold sources; executor run eagerly or late at every step; LocalPool(FIFO) and ANY-order executors (threads forms: hook FIFO and ANY)", if t { 3 } else { 2 })
   }
-  add("c07_move", vec!["C07"], "scheduler-moving operators (local forms): delivered sequence, prefix-on-error, never earlier than the delay", b7, Box::new(|t| c07_run(false, if t { 3 } else { 2 }, false)), 2_000_000, 40_000_000, true);
+  add("c07_move", vec!["C07", "C17"], "scheduler-moving operators (local forms): delivered sequence, prefix-on-error, never earlier than the delay", b7, Box::new(|t| c07_run(false, if t { 3 } else { 2 }, false)), 2_000_000, 40_000_000, true);
   add("c07_move_threads", vec!["C07"], "scheduler-moving operators (_threads forms)", b7, Box::new(|t| c07_run(true, if t { 3 } else { 2 }, false)), 2_000_000, 40_000_000, true);
   add("c07_at_forms", vec!["C07", "C08"], "delay_at, delay_at_threads, delay_subscription_at, timer_at, interval_at: requested delay = time remaining until the instant (real clock, instants now-5s / now / now+10s / now+1000s, tolerance 2 s)", |_| "6 operators x 4 instants".to_string(), Box::new(|_| c07_at_forms()), 10_000, 10_000, false);
   add("c02_sched", vec!["C02"], "scheduler operators: unsubscribe()/guard drop at every point of the script and of the virtual-time line, then every executor order drained and the clock advanced past every deadline", b7, Box::new(|t| c07_run(false, if t { 3 } else { 2 }, true)), 2_000_000, 40_000_000, true);
